@@ -24,15 +24,16 @@ type mutexState struct {
 }
 
 type syncState struct {
-	mutexes map[Loc]*mutexState
-	wgs     map[Loc]*int64
-	onces   map[Loc]bool
+	mutexes  map[Loc]*mutexState
+	wgs      map[Loc]*int64
+	onces    map[Loc]bool
+	onceDone map[Loc]bool
 }
 
 var syncSt syncState
 
 func resetSync() {
-	syncSt = syncState{mutexes: map[Loc]*mutexState{}, wgs: map[Loc]*int64{}, onces: map[Loc]bool{}}
+	syncSt = syncState{mutexes: map[Loc]*mutexState{}, wgs: map[Loc]*int64{}, onces: map[Loc]bool{}, onceDone: map[Loc]bool{}}
 }
 
 func structField(l Loc, name string) Loc {
@@ -155,11 +156,17 @@ func registerSyncIntrinsics(reg regFn) {
 	})
 	reg("(*sync.Once).Do", func(in *Interp, fr *frame, fn *ssa.Function, a []Value, site string) Value {
 		if syncSt.onces[a[0]] {
+			// another caller is (or was) running f: Do returns only after f has returned
+			if !syncSt.onceDone[a[0]] {
+				key := a[0]
+				in.ensureSched().block(func() bool { return syncSt.onceDone[key] }, "sync.Once.Do at "+site)
+			}
 			in.raceAcquire(a[0])
 			return nil
 		}
 		syncSt.onces[a[0]] = true
 		in.call(fr, a[1], nil, nil, site)
+		syncSt.onceDone[a[0]] = true
 		in.raceRelease(a[0])
 		return nil
 	})
@@ -468,7 +475,8 @@ func registerTimeIntrinsics(reg regFn) {
 		ev := s.addTimer(d, nil, nil, 0)
 		ev.loc = loc
 		ev.fn = func() {
-			// runs in its own goroutine
+			// runs in its own goroutine; arming the timer happens before the callback
+			in.forkVC = ev.vc
 			in.goStmt(&frame{in: in, g: in.curG, fn: fn}, f, nil, nil, "AfterFunc:"+site)
 		}
 		return loc
@@ -893,15 +901,25 @@ func registerConcreteFallbacks(reg regFn) {
 		"strings.ReplaceAll": func(in *Interp, a []interface{}) Value {
 			return mkStr(strings.ReplaceAll(a[0].(string), a[1].(string), a[2].(string)))
 		},
-		"strings.Split": func(in *Interp, a []interface{}) Value { return in.strSlice(strings.Split(a[0].(string), a[1].(string))) },
-		"strings.Fields": func(in *Interp, a []interface{}) Value { return in.strSlice(strings.Fields(a[0].(string))) },
+		"strings.Split": func(in *Interp, a []interface{}) Value {
+			return in.strSlice(strings.Split(a[0].(string), a[1].(string)))
+		},
+		"strings.Fields":    func(in *Interp, a []interface{}) Value { return in.strSlice(strings.Fields(a[0].(string))) },
 		"strings.EqualFold": func(in *Interp, a []interface{}) Value { return BoolT(strings.EqualFold(a[0].(string), a[1].(string))) },
-		"strings.Count":     func(in *Interp, a []interface{}) Value { return I64(int64(strings.Count(a[0].(string), a[1].(string)))) },
-		"strings.LastIndex": func(in *Interp, a []interface{}) Value { return I64(int64(strings.LastIndex(a[0].(string), a[1].(string)))) },
-		"strings.IndexByte": func(in *Interp, a []interface{}) Value { return I64(int64(strings.IndexByte(a[0].(string), byte(a[1].(int64))))) },
-		"strings.Repeat":    func(in *Interp, a []interface{}) Value { return mkStr(strings.Repeat(a[0].(string), int(a[1].(int64)))) },
-		"strconv.Itoa":      func(in *Interp, a []interface{}) Value { return mkStr(strconv.Itoa(int(a[0].(int64)))) },
-		"strconv.Quote":     func(in *Interp, a []interface{}) Value { return mkStr(strconv.Quote(a[0].(string))) },
+		"strings.Count": func(in *Interp, a []interface{}) Value {
+			return I64(int64(strings.Count(a[0].(string), a[1].(string))))
+		},
+		"strings.LastIndex": func(in *Interp, a []interface{}) Value {
+			return I64(int64(strings.LastIndex(a[0].(string), a[1].(string))))
+		},
+		"strings.IndexByte": func(in *Interp, a []interface{}) Value {
+			return I64(int64(strings.IndexByte(a[0].(string), byte(a[1].(int64)))))
+		},
+		"strings.Repeat": func(in *Interp, a []interface{}) Value {
+			return mkStr(strings.Repeat(a[0].(string), int(a[1].(int64))))
+		},
+		"strconv.Itoa":  func(in *Interp, a []interface{}) Value { return mkStr(strconv.Itoa(int(a[0].(int64)))) },
+		"strconv.Quote": func(in *Interp, a []interface{}) Value { return mkStr(strconv.Quote(a[0].(string))) },
 		"net.SplitHostPort": func(in *Interp, a []interface{}) Value {
 			h, p, err := net.SplitHostPort(a[0].(string))
 			var e Value = IfaceV{}
@@ -939,10 +957,12 @@ func ip4in6(a, b, c, d byte) []byte {
 }
 
 var foreignGlobals = map[string]func(in *Interp, t types.Type) Value{
-	"net.v4InV6Prefix": func(in *Interp, t types.Type) Value { return constBytes([]byte{0, 0, 0, 0, 0, 0, 0, 0, 0, 0, 0xff, 0xff}) },
-	"net.IPv4zero":     func(in *Interp, t types.Type) Value { return constBytes(ip4in6(0, 0, 0, 0)) },
-	"net.IPv4bcast":    func(in *Interp, t types.Type) Value { return constBytes(ip4in6(255, 255, 255, 255)) },
-	"net.IPv6zero":     func(in *Interp, t types.Type) Value { return constBytes(make([]byte, 16)) },
+	"net.v4InV6Prefix": func(in *Interp, t types.Type) Value {
+		return constBytes([]byte{0, 0, 0, 0, 0, 0, 0, 0, 0, 0, 0xff, 0xff})
+	},
+	"net.IPv4zero":        func(in *Interp, t types.Type) Value { return constBytes(ip4in6(0, 0, 0, 0)) },
+	"net.IPv4bcast":       func(in *Interp, t types.Type) Value { return constBytes(ip4in6(255, 255, 255, 255)) },
+	"net.IPv6zero":        func(in *Interp, t types.Type) Value { return constBytes(make([]byte, 16)) },
 	"net.IPv6unspecified": func(in *Interp, t types.Type) Value { return constBytes(make([]byte, 16)) },
 	"crypto/tls.supportedVersions": func(in *Interp, t types.Type) Value {
 		// var supportedVersions = []uint16{VersionTLS13, VersionTLS12, VersionTLS11, VersionTLS10}
